@@ -154,6 +154,13 @@ def execute(plan, want_logs=False):
 
     ref2, est2, ref3, est3 = build_signals(plan)
     window, hop, perm = plan["window"], plan["hop"], plan["perm"]
+    if not plan["empty"] and (_silent(ref3) or _silent(est3)):
+        # drop-outs in every window of one source silence it over the WHOLE stream: that is not a valid
+        # (non-silent) set of sources any more -- the library must reject it, which is C14's business, not C19's
+        stats.inc("probe.whole_source_silent_stream_skipped")
+        log.add("skipped", "whole source silent")
+        return {"violations": [], "stats": stats.dump(), "log_digest": log.digest(), "n_events": log.n,
+                "log_events": log.events if want_logs else None}
     pA, pB = plan["poisons"]
     log.add("cfg", plan["nsrc"], plan["nchan"], plan["nsampl"], window, hop, perm, plan["empty"], len(plan["drop"]))
     for variant in plan["variants"]:
